@@ -151,14 +151,16 @@ func DefaultProfile() Profile {
 
 // Gen produces scenario ops online from the observed state of a replica.
 type Gen struct {
-	Rng   *rand.Rand
-	B     *Builder
-	KR    *Keyring
-	G     *GenesisSpec
-	Cons  *Consensus
-	P     Profile
-	NAcct int
-	pool  []Op // every tx ever built (replay pool)
+	Rng     *rand.Rand
+	B       *Builder
+	KR      *Keyring
+	G       *GenesisSpec
+	Cons    *Consensus
+	P       Profile
+	NAcct   int
+	pool    []Op  // every tx ever built (replay pool)
+	swapTo  int   // delegatee of the most recently generated release (0: none)
+	swapPow int64 // and its power
 	// option documents offered by proposals
 	OptMenu []string
 	Progs   func(g *Gen, v *View, from int) *Op // contract tx generator (set by evm package code)
@@ -355,6 +357,11 @@ func (g *Gen) NextTx(v *View) *Op {
 			fmt.Sscanf(names[g.Rng.Intn(len(names))], "a%d", &to)
 		}
 		k := int64(1 + g.Rng.Intn(12))
+		if g.swapTo > 0 && g.Rng.Intn(3) == 0 {
+			// replace a stake that was released a moment ago by one of the same power on the same delegatee
+			to, k = g.swapTo, g.swapPow
+			g.swapTo = 0
+		}
 		amt := new(big.Int).Mul(big.NewInt(k), E18)
 		if g.P.Boundary && g.Rng.Intn(3) == 0 {
 			amt = g.boundaryAmount(bal)
@@ -368,11 +375,14 @@ func (g *Gen) NextTx(v *View) *Op {
 		}
 		tx = web3.NewTrxStaking(g.KR.Addr(from), g.KR.Addr(to), nonce, gas, price, u256(amt))
 	case "unstaking":
-		type st struct{ id, from, to string }
+		type st struct {
+			id, from, to string
+			pow          int
+		}
 		var all []st
 		for dn, d := range v.Delegs {
 			for _, s := range d.Stakes {
-				all = append(all, st{s.ID, s.From, dn})
+				all = append(all, st{s.ID, s.From, dn, s.Pow})
 			}
 		}
 		if len(all) == 0 {
@@ -393,6 +403,9 @@ func (g *Gen) NextTx(v *View) *Op {
 		fmt.Sscanf(s.to, "a%d", &toIdx)
 		if toIdx == 0 {
 			return nil
+		}
+		if tag == "unstaking" && s.pow > 0 {
+			g.swapTo, g.swapPow = toIdx, int64(s.pow)
 		}
 		tx = web3.NewTrxUnstaking(g.KR.Addr(from), g.KR.Addr(toIdx), nonce, gas, price, g.KR.HashOf(s.id))
 	case "withdraw":
